@@ -149,3 +149,15 @@ func bitsHex(f float64) string { return fmt.Sprintf("%016x", math.Float64bits(f)
 func cosSin(th float64) (float64, float64) { return math.Cos(th), math.Sin(th) }
 
 func bytesReaderOf(b []byte) *bytes.Reader { return bytes.NewReader(b) }
+
+// genValid is Validate() == nil for use inside generators, where the library is only a filter for candidate inputs:
+// a panic of the library there must not take the driver down (the candidate is dropped; the same defect is observed
+// by the families that call Validate as the operation under test).
+func genValid(g interface{ Validate() error }) (ok bool) {
+	defer func() {
+		if r := recover(); r != nil {
+			ok = false
+		}
+	}()
+	return g.Validate() == nil
+}
